@@ -109,6 +109,7 @@ type Incarnation struct {
 	deliveredStep map[string]int
 	claims        map[string]int
 	quiesced      bool
+	untrusted     int // adversarial inputs handed to this incarnation
 }
 
 // OnPanic implements simrt.Owner: a panic on any goroutine of the node kills the node, not the simulation.
@@ -425,9 +426,7 @@ func (w *World) StartNode(nd *Node) bool {
 			if v.id == nd.id {
 				continue
 			}
-			p := &p2p.Peer{NodeInfo: &p2p.NodeInfo{PubKey: v.pub, Moniker: fmt.Sprintf("v%d", v.id)}, Key: fmt.Sprintf("v%d", v.id), Data: gcmn.NewCMap()}
-			p.Data.Set(types.PeerStateKey, pbft.NewPeerState(p))
-			inc.peers[v.id] = p
+			inc.peers[v.id] = newStubPeer(v)
 		}
 		if _, err := inc.conR.Start(); err != nil {
 			panic(fmt.Sprintf("conR.Start: %v", err))
@@ -531,5 +530,21 @@ func (w *World) violate(prop, oracle, key, format string, args ...interface{}) {
 	w.Log.Add("VIOLATION %s %s %s", prop, oracle, v.Msg)
 	if (w.Target == "" || w.Target == prop) && !w.Known[prop+"/"+oracle+"/"+key] {
 		w.stop = true
+	}
+}
+
+// newStubPeer: an inert but valid p2p.Peer (not running, so Send/TrySend return false) with a real PeerState.
+func newStubPeer(v *valInfo) *p2p.Peer {
+	p := &p2p.Peer{NodeInfo: &p2p.NodeInfo{PubKey: v.pub, Moniker: fmt.Sprintf("v%d", v.id)}, Key: fmt.Sprintf("v%d", v.id), Data: gcmn.NewCMap()}
+	p.Data.Set(types.PeerStateKey, pbft.NewPeerState(p))
+	return p
+}
+
+// reconnect models what production does after a panic inside Receive: the connection's
+// recover drops the peer; when it connects again it gets a fresh PeerState.
+func (w *World) reconnect(inc *Incarnation, id int) {
+	if id >= 0 && id < len(w.vals) && inc.peers[id] != nil {
+		inc.peers[id] = newStubPeer(w.vals[id])
+		w.Probes.Inc("peer_dropped_and_reconnected")
 	}
 }
